@@ -116,7 +116,7 @@ func (c *ExchangeContent) inheritPropertiesFromUserType(
 			return errors.New(jerr.RuntimeFailure)
 		}
 
-		p := c.ObjectProperty(*(cc.Key))
+		p := c.property(*(cc.Key), cc.IsKeyUserTypeRef)
 		if p != nil && p.InheritedFrom == "" {
 			// Don't allow to override original properties.
 			return fmt.Errorf(jerr.NotAllowedToOverrideTheProperty,
@@ -161,6 +161,17 @@ func (c *ExchangeContent) IsObjectHaveProperty(k string) bool {
 func (c *ExchangeContent) ObjectProperty(k string) *ExchangeContent {
 	for _, v := range c.Children {
 		if *(v.Key) == k {
+			return v
+		}
+	}
+	return nil
+}
+
+// property looks a child up by its key: a key shortcut (@t: ...) and a literal key with the
+// same text ("@t": ...) are different properties, as they are for the schema itself.
+func (c *ExchangeContent) property(k string, isKeyShortcut bool) *ExchangeContent {
+	for _, v := range c.Children {
+		if *(v.Key) == k && v.IsKeyUserTypeRef == isKeyShortcut {
 			return v
 		}
 	}
